@@ -70,6 +70,8 @@ def _evaluate(e, env, bits=64):
             return int(v)
         if isinstance(v, (int, float)):
             return v
+        if isinstance(v, str) and v.lower() in ("inf", "+inf", "-inf", "nan"):
+            return float(v)      # float constants the fact extractor prints by name
         raise Uneval("const " + repr(v))
     if k == "bin":
         op = e[1]
